@@ -21,6 +21,7 @@ PANIC_LEAVES = [
     (r"^core::slice::index::<impl std::ops::Index(Mut)?<I> for \[T\]>::index(_mut)?$", "index"),
     (r"^core::str::<impl str>::(split_at|split_at_mut)$", "str-index"),
     (r"^core::str::traits::<impl std::ops::Index(Mut)?<I> for str>::index(_mut)?$", "str-index"),
+    (r"^<std::string::String as std::ops::Index(Mut)?<I>>::index(_mut)?$", "str-index"),       # `s[..n]` on a String: byte offsets
     (r"^std::string::String::(insert|insert_str|remove|drain|split_off|truncate|replace_range)$", "str-index"),
     (r"^core::slice::<impl \[T\]>::(split_at|split_at_mut|copy_from_slice|swap)$", "index"),
     (r"^std::char::methods::<impl char>::from_u32_unchecked$", "unsafe"),
@@ -390,7 +391,12 @@ def auto_discharge(facts, f, defs, s, ctx):
         if size is not None and is_const(size):
             return "A8: allocation of a constant size"
         if size is not None and producer(facts, f, defs, size) in ("len", "count", "capacity", "size_hint", "length"):
-            return "A8: allocation sized by the length of existing data"
+            # `range.len()` (ExactSizeIterator on a Range the caller built from an offset and a count) is a number, not the
+            # length of anything that exists: String::with_capacity(usize::MAX) panics with `capacity overflow`
+            pc = producer_callee(facts, f, defs, size)
+            nm = (facts.callee_name(pc["callee"]) + " " + str(pc["callee"].get("pathargs", ""))) if pc and pc.get("callee") else ""
+            if not re.search(r"ops::Range|RangeInclusive|ExactSizeIterator|iter::Take|iter::Repeat|StepBy", nm):
+                return "A8: allocation sized by the length of existing data"
         return None
     if s["kind"] == "vec-index" and s["what"] == "insert" and len(t.get("args", [])) >= 2 and is_const(t["args"][1], "0"):
         return "A7: Vec::insert at the constant index 0 (always <= len)"
